@@ -79,12 +79,49 @@ Lemma once_ep0 : once_inv ep0.
 Proof. split; [constructor | intros n []]. Qed.
 
 (* the endpoint changes of one step, one lemma per shape *)
+Definition done_nos (d : list (callrec * result)) : list N :=
+  map (fun cr : callrec * result => c_no (fst cr)) d.
+
+Lemma once_same_nos e e' :
+  once_inv e -> done_nos (e_done e') = done_nos (e_done e) -> e_pending e' = e_pending e ->
+  e_count e <= e_count e' -> once_inv e'.
+Proof.
+  intros [H1 H2] Ed Ep Ec. unfold once_inv, nos, done_nos in *. rewrite Ed, Ep. split; [exact H1|].
+  intros n Hn. specialize (H2 n Hn). lia.
+Qed.
+
 Lemma once_same e e' :
   once_inv e -> e_done e' = e_done e -> e_pending e' = e_pending e -> e_count e <= e_count e' ->
   once_inv e'.
+Proof. intros H Ed. apply once_same_nos; [exact H | rewrite Ed; reflexivity]. Qed.
+
+(* the status assignment of a returning caller keeps the calls of the history *)
+Lemma overwrite_nos c d : done_nos (overwrite c d) = done_nos d.
 Proof.
-  intros [H1 H2] Ed Ep Ec. unfold once_inv, nos in *. rewrite Ed, Ep. split; [exact H1|].
-  intros n Hn. specialize (H2 n Hn). lia.
+  unfold done_nos, overwrite. rewrite map_map. apply map_ext. intros cr.
+  destruct (N.eqb (c_no (fst cr)) (c_no c)); reflexivity.
+Qed.
+
+(* ... and changes nothing at all when the call is still in the table *)
+Lemma overwrite_pending e c :
+  once_inv e -> pget (e_pending e) (c_seq c) = Some c -> overwrite c (e_done e) = e_done e.
+Proof.
+  intros [H1 _] G. unfold nos in H1.
+  assert (Cin : In (c_no c) (map (fun kc : Z * callrec => c_no (snd kc)) (e_pending e))).
+  { clear -G. induction (e_pending e) as [|[k2 c2] r IHr]; cbn in G; [discriminate|].
+    destruct (Z.eqb k2 (c_seq c)); [inversion G; subst; left; reflexivity | right; apply IHr; exact G]. }
+  assert (Hno : forall cr, In cr (e_done e) -> N.eqb (c_no (fst cr)) (c_no c) = false).
+  { intros cr Hin. apply N.eqb_neq. intros E.
+    revert H1. generalize (e_pending e) Cin. intros p Cin' H1.
+    assert (Din : In (c_no c) (map (fun cr : callrec * result => c_no (fst cr)) (e_done e))).
+    { apply in_map_iff. exists cr. auto. }
+    clear -H1 Din Cin'. induction (map (fun cr : callrec * result => c_no (fst cr)) (e_done e)) as [|a l IH].
+    - destruct Din.
+    - cbn in H1. inversion H1 as [|? ? Hn Hr]; subst. destruct Din as [->|Din].
+      + apply Hn. apply in_app_iff. right. exact Cin'.
+      + exact (IH Hr Din). }
+  unfold overwrite. rewrite <- (map_id (e_done e)) at 2. apply map_ext_in.
+  intros cr Hin. rewrite (Hno cr Hin). reflexivity.
 Qed.
 
 Lemma once_store e e' c :
@@ -173,7 +210,7 @@ Proof.
     - rewrite ep_with_ep_other. apply H0. }
   assert (Q : forall s0 q s, once_inv (ep_of (with_queue st s0 q) s))
     by (intros; rewrite ep_with_queue; apply H).
-  destruct ev as [s method args meta codec ids|s method args meta codec ids|s i chunks|s j|s|s];
+  destruct ev as [s method args meta codec ids|s method args meta codec ids|s i chunks|s j|s k|s];
     cbn [step] in Hstep.
   - set (c := mkCall (e_count (ep_of st s) + 1) (seq_of_count (e_count (ep_of st s) + 1)) method args meta codec ids) in *.
     destruct (pack_item cfg ids (msg_of_call c)); inversion Hstep; subst st'; apply K; auto.
@@ -188,11 +225,14 @@ Proof.
   - destruct (take_nth j (e_writers (ep_of st s))) as [[[[x wr] [|c rest]] others]|]; try discriminate.
     destruct rest; inversion Hstep; subst st'; apply K; auto;
       (eapply once_same; [apply H | reflexivity | reflexivity | cbn; lia]).
-  - destruct (e_unlocking (ep_of st s)); inversion Hstep; subst st'; apply K; auto.
-    eapply once_same; [apply H | reflexivity | reflexivity | cbn; lia].
+  - destruct (take_nth k (e_unlocking (ep_of st s))) as [[oc rest]|]; inversion Hstep; subst st'; apply K; auto.
+    eapply once_same_nos; [apply H | | reflexivity | cbn; lia].
+    cbn [e_done]. destruct oc; [apply overwrite_nos | reflexivity].
   - destruct (e_broken (ep_of st s)); [discriminate|].
     destruct (raw_unpack _ _ _) as [[[[m ids] sz] rest]| |].
-    + inversion Hstep; subst st'. apply K; [apply Q|]. apply once_dispatch. apply H.
+    + destruct (cf_callmu cfg && beqb (m_mtype m) x02 && caller_inside (ep_of st s) (m_seq m));
+        [discriminate|].
+      inversion Hstep; subst st'. apply K; [apply Q|]. apply once_dispatch. apply H.
     + destruct (frame_complete _ _); inversion Hstep; subst st'; apply K; auto.
       eapply once_same; [apply H | reflexivity | reflexivity | cbn; lia].
     + destruct (frame_complete _ _); inversion Hstep; subst st'; apply K; auto.
